@@ -1216,7 +1216,7 @@ var skipInitPrefixes = []string{"runtime", "internal/abi", "internal/cpu", "inte
 
 // initialisers inside skipped trees that are plain table set-up and are needed
 // (http.NewRequest validates the method against httpguts' token table)
-var forceInit = []string{"vendor/golang.org/x/net/http/httpguts"}
+var forceInit = []string{"vendor/golang.org/x/net/http/httpguts", "golang.org/x/net/http/httpguts"}
 
 func skipInit(path string) bool {
 	for _, p := range forceInit {
